@@ -630,12 +630,13 @@ class Builder:
             mag = MAGNITUDES[row.get("mag", "order_one") if row.get("mag", "na") != "na" else "order_one"]
             fac = mag["params"]
             pars = {k: f(v * fac[i % len(fac)]) for i, (k, v) in enumerate(MODEL_PARAMS[name].items())}
-            if row.get("mag") == "zero":
-                # exactly zero: a float 0.0, or the integer literal 0 a user may well type
-                pars[ZERO_PARAM[name]] = f(0.0) if (how == "as_fitted" or row["rep"] % 2 == 0) else 0
             m = get_isotherm_model(name, parameters=pars,
                                    pressure_range=tuple(f(x) for x in mag["prange"]),
                                    loading_range=tuple(f(x) for x in mag["lrange"]), rmse=f(mag["rmse"]))
+            if row.get("mag") == "zero":
+                # exactly zero, as a fit may leave it (set on the finished model: the original must not depend on how
+                # the constructor treats the value): a float 0.0, or the integer 0
+                m.params[ZERO_PARAM[name]] = f(0.0) if (how == "as_fitted" or row["rep"] % 2 == 0) else 0
             if how == "as_fitted":
                 m.__init_parameters__(dict(kw))
             return pygaps.ModelIsotherm(model=m, branch=branch, **kw)
